@@ -201,7 +201,7 @@ func (st *State) unmodelled(fr *Frame, in ssa.CallInstruction, name string, res 
 // pureExternal lists dependency functions that neither read nor write the
 // program's heap in a way that matters (assumed; listed in evidence).
 func pureExternal(name string) bool {
-	for _, p := range []string{"fmt.", "errors.", "strings.", "strconv.", "math.", "time.", "unicode.", "regexp.", "sort.", "bytes.", "encoding/", "hash/", "(*regexp.", "(time.", "(*strings.", "google.golang.org/grpc/status.", "google.golang.org/grpc/codes.", "(google.golang.org/grpc/codes.", "github.com/google/uuid.", "(github.com/google/uuid.", "google.golang.org/protobuf/types/known/", "(*google.golang.org/protobuf/types/known/", "context.", "(*context.", "invoke context.Context.", "invoke hash.", "invoke io.", "(*sync.Pool).Put"} {
+	for _, p := range []string{"fmt.", "errors.", "strings.", "strconv.", "math.", "time.", "unicode.", "regexp.", "sort.", "bytes.", "encoding/", "hash/", "(*regexp.", "(time.", "(*strings.", "google.golang.org/grpc/status.", "google.golang.org/grpc/codes.", "(google.golang.org/grpc/codes.", "github.com/google/uuid.", "(github.com/google/uuid.", "google.golang.org/protobuf/types/known/", "(*google.golang.org/protobuf/types/known/", "context.", "(*context.", "invoke context.Context.", "invoke hash.", "invoke io.", "io.", "(*sync.Pool).Put", "(*sync.WaitGroup)."} {
 		if strings.HasPrefix(name, p) {
 			return true
 		}
@@ -298,6 +298,53 @@ func (st *State) applyContract(fr *Frame, in ssa.CallInstruction, ct *Contract, 
 		sig := c.Signature()
 		for i := 0; i < sig.Params().Len(); i++ {
 			ptypes = append(ptypes, sig.Params().At(i).Type())
+		}
+	}
+	// Interior pointers (address of a field / element / global) handed to a callee under contract: the contract
+	// speaks about a box, so the pointee is copied into a fresh box before the call and copied back after it
+	// (sound as long as the callee does not keep the pointer, which none of the functions under contract does).
+	type copyBack struct {
+		from *AddrV
+		box  *AddrV
+	}
+	var backs []copyBack
+	args = append([]SVal(nil), args...)
+	for i := range args {
+		a, isAddr := args[i].(*AddrV)
+		if !isAddr || i >= len(ptypes) {
+			continue
+		}
+		pt, isPtr := ptypes[i].Underlying().(*types.Pointer)
+		if !isPtr {
+			continue
+		}
+		if _, isStruct := pt.Elem().Underlying().(*types.Struct); isStruct && !isOpaque(pt.Elem()) {
+			if a.Kind == "field" && a.Path == "" {
+				args[i] = a.Base // a whole struct object: its reference
+				continue
+			}
+			st.unsupported("contract %s: pointer to an embedded struct value passed as argument %d", ct.Key(), i)
+		}
+		if a.Kind == "box" && a.Path == "" {
+			args[i] = a.Base
+			continue
+		}
+		r := st.allocRef()
+		box := &AddrV{Kind: "box", Base: r, Key: "B|" + typeKey(pt.Elem()), Type: pt.Elem()}
+		st.store(box, st.load(st.heap, a))
+		backs = append(backs, copyBack{a, box})
+		args[i] = r
+	}
+	if len(backs) > 0 {
+		// the callee's pre-state includes the boxes just filled
+		env.old = st.snapshot()
+		env.allocBound = st.define("callwm", st.watermark())
+		k0 := k
+		k = func(st *State, res SVal) {
+			for _, b := range backs {
+				st.store(b.from, st.load(st.heap, b.box))
+			}
+			k0(st, res)
 		}
 	}
 	for i, p := range ct.Params {
